@@ -266,7 +266,7 @@ def extra_search(rng, seeds, tier):
     return out
 
 
-def shrink(case):
+def _shrink_raw(case):
     kind, ops = parse(case.line)
     out = []
     for i in range(len(ops)):
@@ -274,4 +274,23 @@ def shrink(case):
     for i, o in enumerate(ops):
         if o[0] == "P" and len(o[2]) > 1:
             out.append(mk(kind, ops[:i] + [("P", o[1], o[2][:1])] + ops[i + 1:], "shrink"))
+    return out
+
+
+def shrink(case):
+    """Shrink candidates, never drifting INTO a listed finding: a candidate that one of the classifiers
+    accepts although the case being shrunk is outside it would turn a new failure into a known one."""
+    mine = {n for n, f in CLASSIFIERS.items() if f(case, "", "OOB")}
+    if mine:
+        # an unlisted failure on an input of a listed finding means model and implementation differ
+        # there; shrinking blind to the outputs could end on a merely known input: report it as it is
+        return []
+    out = []
+    for c in _shrink_raw(case):
+        try:
+            if any(f(c, "", "OOB") for n, f in CLASSIFIERS.items() if n not in mine):
+                continue
+        except Exception:
+            continue
+        out.append(c)
     return out
